@@ -147,7 +147,8 @@ def run(ctx):
                     names = s.rv.j["fields"]
                     wo = prim.origin_of_operand(pf, s.rv.ops[names.index("width")]).strip()
                     jo = prim.origin_of_operand(pf, s.rv.ops[names.index("justify")]).strip()
-                    ok = wo.k == "call" and wo.a["callee"] == FSP + "parse_format_width" and jo.k == "var" and jo.a.get("name") == "justify"
+                    wcalls = [c.a["callee"] for c in wo.call_nodes()]
+                    ok = FSP + "parse_format_width" in wcalls and set(c.a["name"] for c in wo.call_nodes()) <= {"parse_format_width", "branch"} and jo.k == "var" and jo.a.get("name") == "justify"
                     ctx.ob("R3", "directive-carries-width-and-flag", ok, "Directive{width: %s, justify: %s}; oracle: the parsed width and flag" % (wo.fmt(), jo.fmt()), fn=pf, where=prim.site(pf, b, s), how="provenance slice")
     # ---- R2 accessors --------------------------------------------------------------------------------------------
     fd = ctx.fn("R2", P + "format_directive")
